@@ -280,7 +280,13 @@ def triples(rep, mod, methods):
     io, ic = mod.func('DelayFile.iopaths'), mod.func('DelayFile.interconnects')
     zi = [n for n in ast.walk(io) if isinstance(n, ast.ListComp) and '[0,0,0]' in cz(n)]
     zc = [n for n in ast.walk(ic) if isinstance(n, ast.ListComp) and '[0,0,0]' in cz(n)]
-    ok = len(zi) == 1 and len(zc) == 1 and renamed(zi[0], names={'dels': 'X'}) == renamed(zc[0], names={'delvals': 'X'}) and cz(zi[0]) == '[diflen(d)>0else[0,0,0]fordindels]'
+    def zform(n):
+        # the local that holds the value lists and the comprehension variable are the maintainer's to name
+        g = n.generators[0]
+        if len(n.generators) != 1 or g.ifs or not isinstance(g.iter, ast.Name) or not isinstance(g.target, ast.Name):
+            return None
+        return renamed(n, names={g.iter.id: 'X', g.target.id: 'd'}).replace(' ', '')
+    ok = len(zi) == 1 and len(zc) == 1 and zform(zi[0]) == zform(zc[0]) == '[diflen(d)>0else[0,0,0]fordinX]'
     rep.ob('C14.triple', 'empty triple -> [0, 0, 0] identically in iopaths and interconnects', ok)
     if not ok:
         rep.violate('C14.triple', mod, io, zi[0] if zi else 'empty-triple mapping', 'both annotation methods must map an empty value triple to [0, 0, 0] with the same expression', node=io)
